@@ -123,16 +123,26 @@ def _(self, cv, img_left, img_right):
                                 for k in range(cv.coords["disp"].data.shape[0])))
     assigns(cv)
     raises_never()
-    option(budget=4)   # the 'winner' clause needs ~10 s of z3 on an idle machine: keep the verdict stable under load
-    # C03: a pixel with a computable cost gets the sampled disparity of the first best cost; others exactly invalid_disparity
+    option(budget=4)   # the 'winner' clause depends on the solver's random seed (2-8 s for the lucky ones): long seed sweeps keep the verdict stable under load
+    # C03: a pixel with no computable cost receives exactly invalid_disparity
+    ensures("invalid_when_no_cost", all(
+        eq(result["disparity_map"].data[y, x], self._invalid_disparity)
+        for y in range(cv["cost_volume"].data.shape[0]) for x in range(cv["cost_volume"].data.shape[1])
+        if all(isnan(cv["cost_volume"].data[y, x, k]) for k in range(cv["cost_volume"].data.shape[2]))))
+    # C03: every other pixel receives the sampled disparity at the FIRST minimum (maximum for similarity measures) of its costs, a
+    # non-computable (NaN) cost being read as +inf (-inf): np.argmin / np.argmax of the pixel's line of the ghost volume below --
+    # by np.argmin's contract the first index whose cost is <= every other and < every earlier one; as the pixel has a computable
+    # (finite) cost that index is a computable cost too
     ensures("winner", all(
-        (eq(result["disparity_map"].data[y, x], self._invalid_disparity)
-         if all(isnan(cv["cost_volume"].data[y, x, k]) for k in range(cv["cost_volume"].data.shape[2])) else
-         any(eq(result["disparity_map"].data[y, x], cv.coords["disp"].data[r])
-             and (first_max(cv["cost_volume"].data, y, x, r) if cv.attrs["type_measure"] == "max"
-                  else first_min(cv["cost_volume"].data, y, x, r))
-             for r in range(cv["cost_volume"].data.shape[2])))
-        for y in range(cv["cost_volume"].data.shape[0]) for x in range(cv["cost_volume"].data.shape[1])))
+        eq(result["disparity_map"].data[y, x],
+           cv.coords["disp"].data[
+               (np.argmax(array_of(lambda yy, xx, kk: (-np.inf if isnan(cv["cost_volume"].data[yy, xx, kk]) else cv["cost_volume"].data[yy, xx, kk]),
+                                   cv["cost_volume"].data.shape[0], cv["cost_volume"].data.shape[1], cv["cost_volume"].data.shape[2])[y, x, :])
+                if cv.attrs["type_measure"] == "max" else
+                np.argmin(array_of(lambda yy, xx, kk: (np.inf if isnan(cv["cost_volume"].data[yy, xx, kk]) else cv["cost_volume"].data[yy, xx, kk]),
+                                   cv["cost_volume"].data.shape[0], cv["cost_volume"].data.shape[1], cv["cost_volume"].data.shape[2])[y, x, :]))])
+        for y in range(cv["cost_volume"].data.shape[0]) for x in range(cv["cost_volume"].data.shape[1])
+        if not all(isnan(cv["cost_volume"].data[y, x, k]) for k in range(cv["cost_volume"].data.shape[2]))))
     # C09: right after the disparity step a pixel with a computable cost lies inside the sampled interval
     ensures("within_interval", all(
         cv.coords["disp"].data[0] <= result["disparity_map"].data[y, x]
